@@ -146,26 +146,34 @@ func (s shape) prepare(c *hub.Client) bool {
 			order = append(order, i)
 		}
 	}
-	// inserts are buffered before their lock request (it then carries the not-exist assertion)
-	for _, i := range order {
-		if s.kinds[i] == "insert" && !write(i) {
-			return false
+	lockOne := func(i int) bool {
+		if s.kinds[i] == "insert" {
+			// staged insert + lock (the lock request carries the not-exist assertion)
+			return c.InsertLocked(s.keys[i], []byte{0x33, byte(i)}, "-") == "ok"
 		}
+		return c.Lock([][]byte{s.keys[i]}, "-") == "ok"
 	}
-	if c.Lock([][]byte{s.keys[s.primary]}, "-") != "ok" {
+	if !lockOne(s.primary) {
 		return false
 	}
 	if s.together && len(order) > 2 {
 		var rest [][]byte
 		for _, i := range order[1:] {
-			rest = append(rest, s.keys[i])
+			if s.kinds[i] != "insert" {
+				rest = append(rest, s.keys[i])
+			}
 		}
-		if c.Lock(sortedKeys(rest), "-") != "ok" {
+		if len(rest) > 0 && c.Lock(sortedKeys(rest), "-") != "ok" {
 			return false
+		}
+		for _, i := range order[1:] {
+			if s.kinds[i] == "insert" && !lockOne(i) {
+				return false
+			}
 		}
 	} else {
 		for _, i := range order[1:] {
-			if c.Lock([][]byte{s.keys[i]}, "-") != "ok" {
+			if !lockOne(i) {
 				return false
 			}
 		}
